@@ -338,8 +338,8 @@ class INETBase(NLRI):
         Includes family, AddPath status, and wire bytes.
         """
         if self._has_addpath:
-            # _packed already includes path bytes
-            return bytes(Family.index(self)) + self._packed
+            # _packed already includes path bytes; tagged, so that it cannot be read as b'disabled' + mask + prefix
+            return bytes(Family.index(self)) + b'path' + self._packed
         # No AddPath - add discriminator to distinguish from has_addpath=True with 0x00000000
         return bytes(Family.index(self)) + b'disabled' + self._packed
 
